@@ -2,7 +2,8 @@
 From PBK Require Import Base Bits BitsProofs Frame.
 From Coq Require Import ZifyBool ZifyNat ZifyN.
 
-Local Ltac zdiv := Z.to_euclidean_division_equations; lia.
+Ltac Zify.zify_post_hook ::= Z.to_euclidean_division_equations.
+Local Ltac zdiv := lia.
 
 (* ------------------------------------------------------------------------ *)
 (* padding arithmetic                                                        *)
@@ -1018,4 +1019,96 @@ Proof.
       change (pname_beq Nedition Nlength) with false. change (pname_beq Nlength Nlength) with true. reflexivity. }
     split; [reflexivity|]. cbn [sec_values].
     split; [reflexivity|]. split; [exact Hv5|exact Hsecs].
+Qed.
+
+(* C04 total_length_exact: whatever the configuration (recompute, declared 0, or
+   a declared total honoured — a wrong one is refused), the length attribute, the
+   length field of section 0 in the stream and the number of octets produced agree *)
+Theorem total_length_exact : forall ign json m,
+  encode_message ign json = Ok m ->
+  exists len rest sec0 others,
+    prop_get Nlength (m_props m) = Some (PUint len) /\
+    len = Z.of_nat (length (m_bytes m)) /\
+    read_uint 24 (skipn 32 (bits_of_bytes (m_bytes m))) = Ok (Z.to_N len, rest) /\
+    m_sections m = sec0 :: others /\ prop_get Nlength (sec_values sec0) = Some (PUint len) /\
+    (8 * length (m_bytes m) = sections_nbits (m_sections m))%nat.
+Proof.
+  intros ign json m H.
+  apply encode_message_shape in H as (l & ed & e0 & l5 & sec0 & mid & sec5 & H). cbv zeta in H.
+  destruct H as (Hb & Hm & Hr & Hp & Hs & Hv0 & Hv5 & Hn).
+  set (nbytes := (Z.of_nat (64 + length e0 + 32) / 8)%Z) in *.
+  set (B := bits_of_bytes (pad_bytes l 4) ++ to_bits 24 (Z.to_N nbytes) ++ to_bits 8 (Z.to_N ed) ++
+            e0 ++ bits_of_bytes (pad_bytes l5 4)) in *.
+  assert (LB : length B = (8 * Z.to_nat nbytes)%nat).
+  { unfold B. rewrite !app_length, !length_to_bits, !length_bits_of_bytes, !length_pad_bytes. unfold nbytes. zdiv. }
+  rewrite (to_bytes_whole _ _ LB) in Hb.
+  exists nbytes. eexists. exists sec0, (mid ++ [sec5]).
+  split; [exact Hp|]. split; [rewrite Hb, length_bytes_of_bits; lia|].
+  split.
+  { rewrite Hb, (bits_of_bytes_of_bits _ _ LB). unfold B.
+    rewrite skipn_app_exact by (rewrite length_bits_of_bytes, length_pad_bytes; reflexivity).
+    apply (read_uint_to_bits 24); [lia|]. change (2 ^ Z.to_N 24)%N with (Z.to_N (2 ^ 24)). lia. }
+  split; [exact Hs|]. split.
+  { rewrite Hv0. cbn [prop_get]. change (pname_beq Nstart_signature Nlength) with false.
+    change (pname_beq Nlength Nlength) with true. reflexivity. }
+  rewrite Hn, Hb, length_bytes_of_bits. unfold nbytes. zdiv.
+Qed.
+
+(* C04 starts_BUFR_ends_7777: the first four octets are the start_signature
+   value, the last four the stop_signature value (the encoder writes what it is
+   given: with the expected values BUFR / 7777 that is what the message carries) *)
+Theorem starts_BUFR_ends_7777 : forall ign json m,
+  encode_message ign json = Ok m ->
+  exists sec0 mid sec5 l l5,
+    m_sections m = sec0 :: mid ++ [sec5] /\
+    prop_get Nstart_signature (sec_values sec0) = Some (PBytes l) /\
+    prop_get Nstop_signature (sec_values sec5) = Some (PBytes l5) /\
+    (forallb is_byte l = true -> firstn 4 (m_bytes m) = pad_bytes l 4) /\
+    (forallb is_byte l5 = true ->
+       skipn (length (m_bytes m) - 4) (m_bytes m) = pad_bytes l5 4) /\
+    (l = sig_BUFR -> firstn 4 (m_bytes m) = sig_BUFR) /\
+    (l5 = sig_7777 -> skipn (length (m_bytes m) - 4) (m_bytes m) = sig_7777).
+Proof.
+  intros ign json m H.
+  apply encode_message_shape in H as (l & ed & e0 & l5 & sec0 & mid & sec5 & H). cbv zeta in H.
+  destruct H as (Hb & Hm & Hr & Hp & Hs & Hv0 & Hv5 & Hn).
+  set (nbytes := (Z.of_nat (64 + length e0 + 32) / 8)%Z) in *.
+  set (B := bits_of_bytes (pad_bytes l 4) ++ to_bits 24 (Z.to_N nbytes) ++ to_bits 8 (Z.to_N ed) ++
+            e0 ++ bits_of_bytes (pad_bytes l5 4)) in *.
+  assert (Hk : exists k', Z.to_nat nbytes = (4 + (4 + k' + 4))%nat /\ length e0 = (8 * k')%nat).
+  { exists (Z.to_nat (Z.of_nat (length e0) / 8)). unfold nbytes. split; zdiv. }
+  destruct Hk as (k' & Hk & Le0).
+  assert (LB : length B = (8 * Z.to_nat nbytes)%nat).
+  { unfold B. rewrite !app_length, !length_to_bits, !length_bits_of_bytes, !length_pad_bytes. lia. }
+  rewrite (to_bytes_whole _ _ LB) in Hb.
+  assert (Hfirst : forallb is_byte l = true -> firstn 4 (m_bytes m) = pad_bytes l 4).
+  { intros Hl. rewrite Hb, Hk, bytes_of_bits_app. rewrite firstn_app_exact by apply length_bytes_of_bits.
+    unfold B. rewrite <- (length_pad_bytes l 4) at 1.
+    apply bytes_of_bits_of_bytes, forallb_pad_bytes, Hl. }
+  assert (Hlast : forallb is_byte l5 = true -> skipn (length (m_bytes m) - 4) (m_bytes m) = pad_bytes l5 4).
+  { intros Hl. rewrite Hb, length_bytes_of_bits.
+    replace (Z.to_nat nbytes) with ((8 + k') + 4)%nat by lia.
+    rewrite bytes_of_bits_app. rewrite skipn_app_exact by (rewrite length_bytes_of_bits; lia).
+    assert (Es : skipn (8 * (8 + k')) B = bits_of_bytes (pad_bytes l5 4) ++ []).
+    { unfold B. rewrite app_nil_r, !app_assoc. apply skipn_app_exact.
+      rewrite !app_length, !length_to_bits, length_bits_of_bytes, length_pad_bytes. lia. }
+    rewrite Es. rewrite <- (length_pad_bytes l5 4) at 1.
+    apply bytes_of_bits_of_bytes, forallb_pad_bytes, Hl. }
+  exists sec0, mid, sec5, l, l5. split; [exact Hs|].
+  split; [rewrite Hv0; reflexivity|]. split; [rewrite Hv5; reflexivity|].
+  split; [exact Hfirst|]. split; [exact Hlast|].
+  split; intros ->; [apply Hfirst|apply Hlast]; reflexivity.
+Qed.
+
+(* the encoder does not check expected values: what is given is written *)
+Example encoder_writes_given_signature :
+  exists json m, encode_message true json = Ok m /\ firstn 4 (m_bytes m) <> sig_BUFR.
+Proof.
+  exists [[PBytes [65;66;67;68]%N; PUint 0; PUint 4];
+          [PUint 0; PUint 0; PUint 0; PUint 0; PUint 0; PBool false; PBin (zeros 7); PUint 0; PUint 0; PUint 0;
+           PUint 33; PUint 0; PUint 2020; PUint 1; PUint 1; PUint 0; PUint 0; PUint 0];
+          [PUint 0; PBin (zeros 8); PUint 1; PBool true; PBool false; PBin (zeros 6); PDescs [31031]];
+          [PUint 0; PBin (zeros 8); PData [true]];
+          [PBytes sig_7777]]%Z.
+  eexists. split; [vm_compute; reflexivity|]. vm_compute. discriminate.
 Qed.
